@@ -32,7 +32,7 @@ func KCore(k int, g graph.Undirected) []graph.Node {
 	order, offsets := degeneracyOrdering(g)
 
 	var offset int
-	for _, n := range offsets[:k] {
+	for _, n := range offsets[:min(k, len(offsets))] {
 		offset += n
 	}
 	core := make([]graph.Node, len(order)-offset)
